@@ -357,19 +357,21 @@ func (p *sparser) unary() (*SX, error) {
 			return nil, err
 		}
 		var trig []*SX
-		if p.isOp("{") {
+		for p.isOp("{") {
 			p.next()
+			grp := &SX{Op: "trig"}
 			for !p.isOp("}") {
 				tx, err := p.expr(0)
 				if err != nil {
 					return nil, err
 				}
-				trig = append(trig, tx)
+				grp.Args = append(grp.Args, tx)
 				if p.isOp(",") {
 					p.next()
 				}
 			}
 			p.next()
+			trig = append(trig, grp)
 		}
 		body, err := p.expr(0)
 		if err != nil {
